@@ -478,6 +478,30 @@ def stepAt (d : Nat) : List Nat → Rd → Op → Out
       | none => unsupported "no such part"
     | _, _ => unsupported "no such part"
 
+/-! ### clones: a family of cursors over the same source
+
+  Clone* returns a NEW reader object that shares the source with the original: SectionReader / MultiReader clones
+  share the inner reader OBJECTS, an IOBitReadSeeker clone shares the io.ReadSeeker (iobitreadseeker.go:101
+  `NewIOBitReadSeeker(r.rs)`), a LimitReader clone wraps a clone of its source.  A family is the list of the states of
+  the original and its clones; they all have the same shape, and whatever an operation on one of them does to the
+  SHARED part is seen by all the others: `adopt s' c` = cursor `c` with the shared part of `s'`. -/
+
+def adopt : Rd → Rd → Rd
+  | .ioBits b' _ _, .ioBits _ bitPos buf => .ioBits b' bitPos buf
+  | .sect r' _ _ _, .sect _ base off limit => .sect r' base off limit
+  | .multi rs' _ _, .multi _ ends pos => .multi rs' ends pos
+  | .limit r' _, .limit r n => .limit (adopt r' r) n
+  | _, c => c
+
+/-- one operation on cursor k of the family (`clone` adds the clone as a new cursor and leaves the others alone) -/
+def famStep (d : Nat) (cs : List Rd) (k : Nat) (op : Op) : Outcome (List Rd × Res) :=
+  match cs[k]? with
+  | none => unsupported "no such cursor"
+  | some s => do
+    let (s', res) ← step d s op
+    if op = .clone then ok (cs ++ [s'], res)
+    else ok ((cs.set k s').mapIdx (fun j c => if j = k then c else adopt s' c), res)
+
 /-! ### constructors -/
 
 /-- bitio.NewSectionReader(r, bitOff, nBits) -/
